@@ -105,6 +105,56 @@ def stack_known_empty(f, p, after=-1):
     return False
 
 
+def first_match_loop(f, L):
+    """recognise `L = default; for (i, x) in iter.enumerate() { if pred(x) { L = i; break } }`.
+    returns (default expr, iterator source, assigned value is the enumerate index, (predicate expr, value), leaves the loop) or None"""
+    from rules.layout import iter_source
+    from sym import Sym
+    loops = f.loops()
+    def in_or_exit(bid, body):
+        # `L = i; break` sits in an exit block of the loop: not part of the natural loop, but entered only from its body
+        if bid in body:
+            return True
+        preds = f.pred(bid) if hasattr(f, 'pred') else []
+        return bool(preds) and all(q in body for q in preds)
+    inside = [(d, h) for d in f.defs() if d.target == (L,) and d.kind == 'assign' for h, body in loops.items() if in_or_exit(d.bid, body)]
+    outside = [d for d in f.defs() if d.target == (L,) and d.kind == 'assign' and not any(d.bid in body for body in loops.values())]
+    if not inside:
+        return None
+    # innermost loop containing the assignment
+    d, h = min(inside, key=lambda x: len(loops[x[1]]))
+    if len([x for x in inside if x[1] == h]) != 1:
+        return None
+    body = loops[h]
+    sy = Sym(f)
+    # the default is the value assigned before the loop is entered (in an enclosing loop body or outside all loops)
+    pre = [x for x in f.defs() if x.target == (L,) and x.kind in ('assign', 'call') and x.bid not in body and x is not d and f.dominates(x.bid, h)]
+    if len(pre) != 1:
+        return None
+    dflt = sy.def_value(pre[0], (pre[0].bid, pre[0].idx), (L,))
+    src = iter_source(f, h)
+    if src is None or src[0] != 'fwd' or not src[1]:
+        return None
+    # path through one iteration that performs the assignment
+    hit = None
+    for p in explore(f, max_visits=1, havoc=True, start=h, limit=400):
+        if d.bid in p.blocks:
+            hit = p
+            break
+    if hit is None:
+        return None
+    k = hit.blocks.index(d.bid)
+    st = f.blocks[d.bid]['stmts'][d.idx]
+    v = hit.sym.rvalue_at(st['rv'], (k, d.idx))
+    idx_ok = v[0] == 'field' and v[2] == '0' and any(is_call(x, '::next') for x in walk(v))
+    cmpd = [x for x in hit.decisions if x[0] < k and x[2][0] == 'bin' and x[2][1] in ('Gt', 'Ge', 'Lt', 'Le')]
+    pred = (cmpd[-1][2], cmpd[-1][3]) if cmpd else None
+    # after the assignment control leaves the loop without another iteration
+    rest = hit.blocks[k + 1:]
+    breaks = all(b not in body or b == d.bid for b in rest[:1]) or (hit.end != 'cut') or not any(b == h for b in rest)
+    return dflt, src[2], idx_ok, pred, breaks
+
+
 def seek_rules(ctx, R41, R42, R34, R36, want_c03=True, want_c04=True, R35s=None):
     lib = ctx.lib
     f = lib.fn(SEEK)
@@ -196,6 +246,47 @@ def seek_rules(ctx, R41, R42, R34, R36, want_c03=True, want_c04=True, R35s=None)
                             shape = norm(stdalg.canon_value(tr)) == norm(stdalg.canon_value(('okof', pos)))
                         else:
                             shape = is_call(tr, '::len') and is_head(tr[2][0], {LN})
+                idx_form = tr is not None and tr[0] == 'field' and tr[2] == '0' and any(is_call(x, 'Enumerate<I> as std::iter::Iterator>::next') for x in walk(tr))
+                len_form = is_call(tr, '::len') and is_head(tr[2][0], {LN})
+                if pos is None and (idx_form or len_form or (tr is not None and tr[0] == 'havoc')):
+                    # explicit search loop:  let mut trans = node.len(); for (i, t) in node.transitions().enumerate() { if t.inp > b { trans = i; break } }
+                    fm = None
+                    for L in sorted(l for l in f.locals if f.local_ty(l) == 'usize' and f.locals[l].get('name')):
+                        fm = first_match_loop(f, L)
+                        if fm is not None and any(is_call(x, '::transitions') for x in walk(fm[1])):
+                            break
+                        fm = None
+                    if fm is not None:
+                        dflt, src, idx_ok, pred, breaks = fm
+
+                        def is_ln(x):
+                            return is_head(x, {LN}) or (x[0] == 'phi' and x[1] == (LN,))
+
+                        def shape(x):
+                            from sym import map_children as _mc
+                            if isinstance(x, tuple) and x[0] in ('phi', 'havoc'):
+                                return ('*',)
+                            if isinstance(x, tuple) and x[0] == 'call':
+                                return ('call', x[1] if isinstance(x[1], str) else '?', tuple(shape(a) for a in x[2]), None)
+                            return _mc(x, shape) if isinstance(x, tuple) else x
+
+                        def is_b(x):
+                            if norm(x) == norm(b):
+                                return True
+                            if x[0] == 'undef' and len(x[1]) == 1:
+                                from sym import Sym as _S
+                                dl = [dd for dd in f.defs() if dd.target == x[1] and dd.kind == 'assign']
+                                return len(dl) == 1 and shape(norm(_S(f).def_value(dl[0], (dl[0].bid, dl[0].idx), x[1]))) == shape(norm(b))
+                            return False
+                        okt = is_call(dflt, '::len') and is_ln(dflt[2][0]) and idx_ok and breaks and \
+                            any(is_call(x, '::transitions') and is_ln(x[2][0]) for x in walk(src)) and \
+                            pred is not None and pred[0][0] == 'bin' and (
+                                (pred[0][1] in ('Gt', 'Ge') and pred[1] == 1 and any(x[0] == 'field' and x[2] == 'inp' for x in walk(pred[0][2])) and is_b(pred[0][3])) or
+                                (pred[0][1] in ('Lt', 'Le') and pred[1] == 1 and any(x[0] == 'field' and x[2] == 'inp' for x in walk(pred[0][3])) and is_b(pred[0][2])) or
+                                (pred[0][1] in ('Le', 'Lt') and pred[1] == 0 and any(x[0] == 'field' and x[2] == 'inp' for x in walk(pred[0][2])) and is_b(pred[0][3])))
+                        if okt and pred[0][1] in ('Ge', 'Le') and not ((pred[0][1] == 'Le') and pred[1] == 0):
+                            okt = False      # must be strictly larger
+                        why = 'search loop: default %s, predicate %s=%s' % (fmt(dflt)[:30], fmt(pred[0])[:50] if pred else None, pred[1] if pred else None)
                 if pos is not None and shape:
                     src, clo = pos[2][0], pos[2][1]
                     if is_call(src, '::transitions') and is_head(src[2][0], {LN}) and clo[0] == 'closure' and clo[1] in lib.fns:
@@ -285,7 +376,25 @@ def seek_rules(ctx, R41, R42, R34, R36, want_c03=True, want_c04=True, R35s=None)
         st = [s for s in p.stores() if s[2] == (1, 'empty_output')]
         if want_c03:
             if inc and inc[0][3] == 1:
-                ok = len(st) == 1 and is_call(p.sym.rvalue_at(st[0][3]['rv'], (st[0][0], st[0][1])), 'empty_final_output')
+                ok = False
+                if len(st) == 1:
+                    # the stored value must be "Some(final output of the root) if the root is final, else None" - through the private
+                    # helper, or spelled out on this path
+                    import vsplit
+                    v = p.sym.rvalue_at(st[0][3]['rv'], (st[0][0], st[0][1]))
+                    cases = vsplit.split(lib, v, 0, True)
+                    own = [(d[2], d[3]) for d in p.decisions if is_call(d[2], '::is_final')]
+                    good = []
+                    for cs, cv in cases:
+                        conds = own + [c for c in cs if is_call(c[0], '::is_final')]
+                        fin = [val for (ce, val) in conds if any(is_call(x, '::root') for x in walk(ce))]
+                        if fin and fin[-1] == 1:
+                            good.append(cv[0] == 'agg' and cv[1].endswith('Option::Some') and is_call(cv[2][0][1], '::final_output') and any(is_call(x, '::root') for x in walk(cv[2][0][1])))
+                        elif fin and fin[-1] == 0:
+                            good.append(cv[0] == 'agg' and cv[1].endswith('Option::None'))
+                        else:
+                            good.append(False)
+                    ok = bool(good) and all(good)
                 ctx.check(R36, ok, 'empty-inclusive', 'an empty inclusive lower bound must arm the pending empty-key output from the root', fn=f)
             else:
                 ctx.check(R36, not st, 'empty-exclusive', 'an empty EXCLUSIVE lower bound must not arm the empty-key output (gt "" excludes the empty key)', fn=f)
@@ -360,7 +469,7 @@ def next_rules(ctx, R41, R42, R43, R44, R45, R35, R36, want_c03=True, want_c04=T
             # skip branch: frame exhausted or pruned
             if p.end in ('cut',):
                 n_iter += 1
-                root_guard = [d for d in p.decisions if d[2][0] == 'bin' and d[2][1] in ('Ne', 'Eq') and any(is_call(x, '::root_addr') for x in walk(d[2]))]
+                root_guard = [d for d in p.decisions if d[2][0] == 'bin' and d[2][1] in ('Ne', 'Eq') and any(is_call(x, '::root_addr') or (x[0] == 'field' and x[2] == 'root_addr') for x in walk(d[2]))]
                 at_root = bool(root_guard) and ((root_guard[0][2][1] == 'Ne' and root_guard[0][3] == 0) or (root_guard[0][2][1] == 'Eq' and root_guard[0][3] == 1))
                 if want_c03:
                     want = -1 if at_root else 0
